@@ -14,8 +14,15 @@ WITNESSES = ['C12WithMutNeedsMut']
 
 
 def run(ctx):
+    from . import guardvocab as _gv
+    _gv.G3(ctx, scopes=('sync::atomic::', 'rt::atomic::'))
     atomics.N1(ctx)
     atomics.N2(ctx)
     atomics.N3(ctx)
     atomics.N4(ctx)
     atomics.O2(ctx)
+    atomics.R1(ctx)
+    atomics.N5(ctx)
+    # a load in the thread that performed the latest store returns that store, also after a yield
+    from . import tlsrules
+    tlsrules.U4(ctx)
